@@ -86,6 +86,20 @@ Theorem C04g_example :
 Proof. exact g_example. Qed.
 Print Assumptions C04g_example.
 
+Theorem C04g_fs_fmt_loop :
+  forall (s : FastSet) (l f : list N),
+       (forall i : N, In i l -> (N.to_nat i < length (FastSet_elem s))%nat) ->
+       exists out : list N, FastSet_fmt_loop1 l s f = Some (LoopDone (f ++ out)).
+Proof. exact g_fs_fmt_loop. Qed.
+Print Assumptions C04g_fs_fmt_loop.
+
+Theorem C04g_fs_fmt_total :
+  forall (s : FastSet) (f : list N),
+       (N.to_nat (FastSet_size s) <= length (FastSet_elem s))%nat ->
+       exists out : list N, M_FastSet_fmt s f = Some (f ++ out, Ok tt).
+Proof. exact g_fs_fmt_total. Qed.
+Print Assumptions C04g_fs_fmt_total.
+
 (* ---- BasePartition: constructor, accessors and the header update of refine_block are the model's bpart (convbp) ---- *)
 
 Theorem C04g_link_new_loop :
